@@ -353,7 +353,7 @@ def check_neighbour_query(rec, name, lane, pos, cell, pbc, extension, cutoff, es
             # all images within cutoff, not only the nearest: enumerate offsets
             h = omic.heights(_complete(cell0)[0], [i not in zero for i in range(3)])
             K = [int(np.ceil(cutoff / h[i])) + 1 if pbc[i] else 0 for i in range(3)]
-            if (2 * K[0] + 1) * (2 * K[1] + 1) * (2 * K[2] + 1) * len(pos) <= 400000:
+            if (2 * K[0] + 1) * (2 * K[1] + 1) * (2 * K[2] + 1) * len(pos) <= 60000:
                 offs = np.array(list(itertools.product(*[range(-k, k + 1) for k in K])), float)
                 imgs = pos[:, None, :] + (offs @ cell0)[None, :, :]
                 dd = np.linalg.norm(q[None, None, :] - imgs, axis=2)
